@@ -10,8 +10,8 @@ open MdIt.Proto
 def parseLines (t : String) : List BLine :=
   if t == "~" then [] else
   (t.splitOn ",").map (fun p => match p.splitOn ":" with
-    | [e, sc] => { empty := decBool e, sCount := sc.toInt! }
-    | _ => { empty := true, sCount := 0 })
+    | [e, sc] => { sCount := sc.toInt!, text := if decBool e then [] else ['x'] }
+    | _ => { sCount := 0 })
 
 def parseScript (t : String) : List (Nat × Nat) :=
   if t == "~" then [] else
